@@ -89,7 +89,21 @@ def sc_loop_set(ctx: Any) -> Tuple[bool, str]:
         a = s.node.args[0] if s.node.args else None
         td = ctx.ty.type_of(s.caller.module.name, a) if a is not None else None
         if td is None or td[0] != 'inst':
-            problems.append(f'{s.caller.where()}:{s.line} passes `{norm(a) if a is not None else "?"}` of type {td}')
+            # not narrowed by the type oracle (it reads the source text): accept a dominating truthiness / `is not None`
+            # test of the same expression in the (canonical) syntax tree
+            narrowed = False
+            if a is not None:
+                ccfg = cfg_of(s.caller.node)
+                host = next((n for n in ccfg.nodes if any(c is s.node for c in n.calls())), None)
+                for t in ccfg.nodes:
+                    if host is None or t.kind != 'test' or not ccfg.dominates(t, host):
+                        continue
+                    te = t.ast
+                    pos = norm(te) == norm(a) or (isinstance(te, ast.Compare) and len(te.ops) == 1 and isinstance(te.ops[0], ast.IsNot) and norm(te.left) == norm(a) and isinstance(te.comparators[0], ast.Constant) and te.comparators[0].value is None)
+                    if pos and all(x is host or ccfg.dominates(x, host) for x, lab in t.succ if lab is True) and any(lab is True for _, lab in t.succ):
+                        narrowed = True
+            if not narrowed:
+                problems.append(f'{s.caller.where()}:{s.line} passes `{norm(a) if a is not None else "?"}` of type {td}')
         if a is None or not (isinstance(a, ast.Attribute) and a.attr == 'loop'):
             problems.append(f'{s.caller.where()}:{s.line} does not pass the instance\'s own loop')
     # Zeroconf.loop / AsyncEngine.loop are never reset to None after construction
